@@ -1,13 +1,15 @@
 ----------------------------- MODULE MC_Size -----------------------------
 (* SmtpServer instance for the size-limit family (C06): limit 8, chunk     *)
 (* sizes {0, 3, 6, 12} so that three-chunk accumulations (3+3+3 > 8),      *)
-(* exact fits (3+3, 6) and an over-limit first chunk are all in the graph. *)
+(* fits (3+3, 6) and an over-limit first chunk are all in the graph; and    *)
+(* limit 9, which 3+6 and 3+3+3 use up EXACTLY: an empty chunk (BDAT 0,    *)
+(* BDAT 0 LAST) still belongs to the message then.                         *)
 EXTENDS SmtpServer, Json
 
 MCConfigs ==
-  { [lmtp |-> l, maxRcpt |-> 0, maxBytes |-> 8, tlsAvail |-> FALSE, implicitTLS |-> FALSE,
+  { [lmtp |-> l, maxRcpt |-> 0, maxBytes |-> b, tlsAvail |-> FALSE, implicitTLS |-> FALSE,
      insecureAuth |-> FALSE, authBackend |-> FALSE, lmtpBackend |-> FALSE,
-     binarymime |-> TRUE, dsn |-> FALSE] : l \in BOOLEAN }
+     binarymime |-> TRUE, dsn |-> FALSE] : l \in BOOLEAN, b \in {8, 9} }
 
 MCAlphabet == {"greet", "mail", "rcpt", "data", "bdat", "simple", "quit"}
 
